@@ -214,8 +214,8 @@ def _subst_params(t, args):
 def _offsets(ctx, prog, wt, rd):
     # writer: deg(x) helper -> "deg(" + to_degrees + ")"   (or the literal "0")
     degs = [b for p, b in prog.bodies.items() if p == 'utils::deg']
-    pd = [b for p, b in prog.bodies.items() if p.endswith('::parse_degrees')]
-    ro = [b for p, b in prog.bodies.items() if p.endswith('::read_offsets')]
+    pd = [b for p, b in prog.bodies.items() if p.startswith('parameters_from_file::') and b.kind != 'Closure' and util.sig(b)[1:] == ['&str'] and 'Result<f64' in util.sig(b)[0]]
+    ro = [b for p, b in prog.bodies.items() if p.startswith('parameters_from_file::') and b.kind != 'Closure' and 'Result<[f64; 6]' in util.sig(b)[0]]
     if not ctx.check(len(degs) == 1 and len(pd) == 1 and len(ro) == 1, 'R19.2', 'offsets/helpers', rd.where(0), rd.path, 'deg() / parse_degrees / read_offsets helpers not found'):
         return
     dg, pd, ro = degs[0], pd[0], ro[0]
@@ -243,6 +243,35 @@ def _offsets(ctx, prog, wt, rd):
     ctx.check(ok, 'R19.2', 'offsets/deg-syntax', pd.where(0), pd.path,
               'writer `deg(<degrees>)` and reader (strip `deg(` / `)`, to_radians) must agree', found='writer %s %s; reader strips %s, converts %s' % (lits, sorted(conv), strs, sorted(x for x in rconv if 'radians' in x or 'degrees' in x)),
               detail='deg( .. ) <-> to_radians')
+    # the degree conversion belongs to the deg(..) syntax only: a plain number is radians
+    conv_paths = plain_paths = 0
+    bad_paths = []
+    for t, d, rb in pd.return_values():
+        tt = strip(t)
+        if isinstance(tt, tuple) and tt[0] == 'call' and cname(tt[1]) == 'FromResidual::from_residual':
+            continue
+        gs = [(strip(g), k) for g, k, sw in pd.guard_terms(d[1])]
+        on_deg = [k for g, k in gs if isinstance(g, tuple) and g[0] == 'discr' and mir.contains(g, lambda x: x[0] == 'call' and cname(x[1]) == 'str::strip_prefix')]
+        converts = _converts_to_radians(prog, tt)
+        if converts and on_deg == [1]:
+            conv_paths += 1
+        elif not converts and on_deg in ([0], ['otherwise']):
+            plain_paths += 1
+        else:
+            bad_paths.append('%s on the %s edge' % ('to_radians' if converts else 'no conversion', {(): 'unconditional', (1,): 'deg(..)', (0,): 'plain-number', ('otherwise',): 'plain-number'}.get(tuple(on_deg), str(on_deg))))
+    ctx.check(conv_paths >= 1 and plain_paths >= 1 and not bad_paths, 'R19.2', 'offsets/plain-radians', pd.where(0), pd.path,
+              'deg(x) must be converted to radians and a plain number must be taken as radians (the documented format mixes `0.0` and `deg(-90.0)`): ' + '; '.join(bad_paths),
+              found='converting paths=%d plain paths=%d other=%s' % (conv_paths, plain_paths, bad_paths), detail='deg(..) -> to_radians; plain -> as is')
+    # the Real variant of an offset entry must not pass through a degree conversion either
+    for c in util.closure_bodies(prog, ro.path):
+        for t, d, rb in c.return_values():
+            tt = strip(t)
+            downs = set()
+            for g, k, sw in c.guard_terms(d[1]):
+                pass
+            if mir.contains(tt, lambda x: x[0] == 'as' and x[2] == 'Real'):
+                ctx.check(not _converts_to_radians(prog, tt) and not mir.contains(tt, lambda x: x[0] == 'call' and x[1] == pd.path), 'R19.2', 'offsets/real-is-radians', c.where(0), c.path,
+                          'a Real offset entry is a plain radian value and must be parsed as such', found=show(tt, maxdepth=5))
     # reader variants per item: String -> parse_degrees, Real -> parse, Integer -> as f64
     variants = set()
     for c in [ro] + util.closure_bodies(prog, ro.path):
@@ -266,9 +295,24 @@ def _offsets(ctx, prog, wt, rd):
               'offset entries must be accepted as deg(..) strings, reals and integers (the writer prints `0` for a zero offset)', found=sorted(variants), detail=str(sorted(variants)))
 
 
+def _converts_to_radians(prog, t):
+    """term t (possibly through map closures) applies f64::to_radians"""
+    hit = []
+
+    def f(x):
+        if x[0] == 'call' and cname(x[1]) == 'f64::to_radians':
+            hit.append(1)
+        if x[0] == 'agg' and str(x[1]).startswith('closure:'):
+            cb = prog.bodies.get(x[1][len('closure:'):])
+            if cb is not None and any(cname(callee_name(c)) == 'f64::to_radians' for _, c in cb.calls()):
+                hit.append(1)
+    mir.walk(t, f)
+    return bool(hit)
+
+
 def _arrays(ctx, prog):
-    for name in ('read_offsets', 'read_sign_corrections'):
-        bs = [b for p, b in prog.bodies.items() if p.endswith('::' + name)]
+    for name, rty in (('read_offsets', 'Result<[f64; 6]'), ('read_sign_corrections', 'Result<[i8; 6]')):
+        bs = [b for p, b in prog.bodies.items() if p.startswith('parameters_from_file::') and b.kind != 'Closure' and rty in util.sig(b)[0]]
         if not ctx.check(len(bs) == 1, 'R19.3', name + '/exists', '', name, 'array reader not found'):
             continue
         b = bs[0]
